@@ -122,6 +122,11 @@ RULES = {
     'P12k': ('rules_extra2', 'token life cycle: created at the current epoch under the lock and registered; removed by retain(!=); announce -> unregister -> retire'),
     'P15i': ('rules_extra2', 'initial state of a new queue: head = first stream = tail cache = last_pos = 0, one consumer, no pins'),
     'P12g': ('rules_extra', 'every operation that sees the epoch bit announces with its own token'),
+    'P5n': ('rules_r10', 'a new stream is published with exactly one registered consumer (constants followed up through every caller)'),
+    'W19': ('rules_r10', 'every unsafe impl Send/Sync of a handle type bounds each type parameter of which the type stores a value (evaluated by the C19 check)'),
+    'P4r': ('rules_r10', 'no function of the queue layers returns a reference into a slot payload'),
+    'S6': ('rules_r10', 'receive handles store no payload value (all receive entry points draw from the ring)'),
+    'P12u': ('rules_r10', 'no user code (a closure handed in through an entry point of the crate) runs while a function walks the published stream list'),
     # ---- thorough-tier sweeps
     'W3s': ('rules_sweep', 'crate-wide: every slot-payload access is at a site one of the vetted entry graphs contains'),
     'W1s': ('rules_sweep', 'crate-wide: every write to head / tags / positions / pins / counts / tail cache / stream list is at a vetted site'),
@@ -142,10 +147,10 @@ FUTURES = ['P2d', 'P6b', 'P6c', 'P6d', 'P7c', 'P7d', 'P7e', 'P7f', 'P7g', 'P7h',
 
 PROPS = {
     # (a blocking receive that reports the end while an accepted value is still in the ring loses that value for its stream)
-    'C01': DATAPATH + ['P6b'],
-    'C02': DATAPATH,
-    'C03': DATAPATH,
-    'C04': DATAPATH + ['W14', 'P3u'],
+    'C01': DATAPATH + ['P6b', 'S6'],
+    'C02': DATAPATH + ['S6'],
+    'C03': DATAPATH + ['P5n'],
+    'C04': DATAPATH + ['W14', 'P3u', 'P4r'],
     'C05': DATAPATH + ['P13c', 'P13e', 'P13g', 'P3u', 'W14'],
     # ... a send refused for good (Disconnected raised while streams exist) is a refused send the quiescent state does not explain
     'C06': DATAPATH + ['W10', 'C13map', 'P9c'],
@@ -153,14 +158,14 @@ PROPS = {
     # side of the parking protocol belongs here as well
     'C07': ['P3f', 'P6b', 'W6', 'P2e', 'P8', 'P7a', 'P7b', 'P7f', 'P7i', 'S3', 'O3', 'P2d', 'P7c', 'P7d', 'P7g', 'P7h', 'P7j', 'P11c', 'P11g'],
     'C08': ['P7a', 'P7b', 'P7f', 'P7h', 'P7i', 'P7k', 'P2d', 'P8', 'P6b', 'P6c', 'P6d', 'P3f', 'O3'],
-    'C09': ['P1a', 'P1b', 'P1h', 'P3f', 'P6b', 'P9b', 'P9c', 'P9f', 'P9g', 'P10a', 'P10b', 'P10e', 'P10h', 'P11a', 'P11b', 'P11c', 'S1', 'S3', 'W10', 'W13', 'P15i', 'C13map', 'P15', 'P15m', 'P15w', 'P7c', 'P7d', 'P7e', 'P7f', 'P7g', 'P7h', 'P7j', 'P1f', 'P1g', 'P3a', 'P3e', 'P3g', 'P4', 'P4e'],
-    'C10': ['P10a', 'P10b', 'P10c', 'P10d', 'P10f', 'P10g', 'P10h', 'P15', 'P15m', 'P15n', 'P15w', 'P3t', 'P5a', 'S5', 'W9'],
-    'C11': ['P9a', 'P9b', 'P9c', 'P9d', 'P9f', 'P10b', 'P10h', 'P11i', 'P10d', 'P10e', 'P10f', 'P10g', 'P1b', 'P11e', 'P11g', 'P12d', 'W7', 'W9', 'S5'],
-    'C12': DATAPATH + ['W6', 'P9a'],
+    'C09': ['P1a', 'P1b', 'P1h', 'P3f', 'P6b', 'P9b', 'P9c', 'P9f', 'P9g', 'P10a', 'P10b', 'P10e', 'P10h', 'P11a', 'P11b', 'P11c', 'S1', 'S3', 'W10', 'W13', 'P15i', 'C13map', 'P15', 'P15m', 'P15w', 'P7c', 'P7d', 'P7e', 'P7f', 'P7g', 'P7h', 'P7j', 'P1f', 'P1g', 'P3a', 'P3e', 'P3g', 'P4', 'P4e', 'P8', 'W6', 'S6', 'P5n'],
+    'C10': ['S6', 'P10a', 'P10b', 'P10c', 'P10d', 'P10f', 'P10g', 'P10h', 'P15', 'P15m', 'P15n', 'P15w', 'P3t', 'P5a', 'S5', 'W9'],
+    'C11': ['P5n', 'P9a', 'P9b', 'P9c', 'P9d', 'P9f', 'P10b', 'P10h', 'P11i', 'P10d', 'P10e', 'P10f', 'P10g', 'P1b', 'P11e', 'P11g', 'P12d', 'W7', 'W9', 'S5'],
+    'C12': DATAPATH + ['W6', 'P9a', 'P5n'],
     'C13': FUTURES + ['C13map', 'P2c', 'P9c', 'W10'],
     'C14': FUTURES,
     'C15': FUTURES + ['P7a', 'S3'],
-    'C16': ['P6a', 'P12k', 'P13e', 'W9', 'W12', 'P12a', 'P12b', 'P12c', 'P12d', 'P12e', 'P12f', 'P12g', 'P12i', 'P13d', 'P10c', 'P10d', 'P10f', 'P9e', 'S5'],
+    'C16': ['P12u', 'P4r', 'P6a', 'P12k', 'P13e', 'W9', 'W12', 'P12a', 'P12b', 'P12c', 'P12d', 'P12e', 'P12f', 'P12g', 'P12i', 'P13d', 'P10c', 'P10d', 'P10f', 'P9e', 'S5'],
     'C17': ['P6a', 'P12k', 'P13e', 'P13f', 'P13g', 'P12e', 'P12f', 'P12g', 'P12h', 'P12i', 'P13a', 'P13b', 'P13d', 'P9e', 'P10c', 'P10d'],
     'C18': ['P14', 'P14n', 'P7k', 'P3b', 'P3t', 'P1b'],
 }
